@@ -606,6 +606,20 @@ func (p *Parsed) interpretTokens(toks []psTok, private bool) error {
 				i += 2
 				continue
 			}
+			// /name /other load def : the charstring of an earlier entry
+			// under a second name
+			if i+3 < len(toks) && v.k == tkName && toks[i+2].k == tkWord && string(toks[i+2].s) == "load" && toks[i+3].k == tkWord && string(toks[i+3].s) == "def" {
+				if plain, ok := p.CharStrings[string(v.s)]; ok {
+					if _, dup := p.CharStrings[key]; dup {
+						return perr("glyph %q defined twice", key)
+					}
+					p.CharStrings[key] = plain
+					p.CharCipher[key] = p.CharCipher[string(v.s)]
+					p.GlyphOrder = append(p.GlyphOrder, key)
+					i += 3
+					continue
+				}
+			}
 			continue
 		}
 		switch key {
